@@ -371,6 +371,12 @@ pub fn fault_events(seed: u64, thorough: bool, dir: &str) -> Vec<Value> {
                 sem(&format!("{}.{} {} -> {}", mat, key, cur, nv), "any", &|x| { x[mat][key] = json!(nv); });
             }
         }
+        // every column pointer of P and of A pushed above the number of stored entries, one position at a time
+        for mat in ["P", "A"] {
+            let cp = v[mat]["colptr"].as_array().unwrap();
+            let nnz = v[mat]["rowval"].as_array().unwrap().len();
+            for k in 0..cp.len() { sem(&format!("{}.colptr[{}] above nnz", mat, k), "any", &|x| { x[mat]["colptr"][k] = json!(nnz + 3); }); }
+        }
         // every boolean of the stored settings flipped on its own; every cone dimension replaced by huge values
         if let Some(so) = v.get("settings").and_then(|x| x.as_object()) {
             for (k, val) in so { if let Some(bv) = val.as_bool() { let kk = k.clone(); sem(&format!("settings.{} flipped", k), "any", &|x| { x["settings"][kk.as_str()] = json!(!bv); }); } }
@@ -534,6 +540,15 @@ pub fn roundtrip_events(seed: u64, count: usize, dir: &str) -> (Vec<Value>, Vec<
         if rng.gen::<f64>() < 0.1 { p.P = Csc::zeros(p.n(), p.n()); }
         if rng.gen::<f64>() < 0.1 && !p.q.is_empty() { p.q[0] = 1.2345678901234567e300; }
         if rng.gen::<f64>() < 0.1 && !p.q.is_empty() { p.q[0] = 4.9e-324; }
+        // large finite right-hand sides (1e16 .. 1e19, below the infinity bound) in rows with tiny coefficients: the row scaling
+        // is then far above 1 and the scaled entry crosses the bound although the user's does not
+        if rng.gen::<f64>() < 0.12 && p.m() > 0 {
+            let i = rng.gen_range(0..p.m());
+            let mut a = p.A.to_dense();
+            for vv in a[i].iter_mut() { *vv *= 1e-6; }
+            p.A = Csc::from_dense(&a, p.m(), p.n());
+            p.b[i] = [1e16, 1e17, 3e18, 9e19][rng.gen_range(0..4)];
+        }
         let upd = rng.gen::<f64>() < 0.25;
         let ev = roundtrip_event_upd(run, &p, dir, rng.gen::<bool>(), rng.gen::<f64>() < 0.25, upd);
         if ev.get("skipped").is_some() { lines.push(roundtrip_event(run, &p, dir, false, false)); } else { lines.push(ev); }
